@@ -334,6 +334,43 @@ fn c01(c: &mut Ctx) {
     }
 }
 
+/// The SAN texts of pseudo-legal moves that are NOT legal (pinned men, king into check, captures that uncover the king),
+/// written by hand since the library will not print them: every spelling must be refused.
+fn illegal_san_texts(b: &Board, sm: &[Move], lm: &[Move], k: usize) -> Vec<String> {
+    let mut sstr: Vec<String> = Vec::new();
+    for m in sm.iter().filter(|m| !lm.contains(m)).take(k) {
+        let (sf, df) = (m.src().file().as_char(), m.dst().file().as_char());
+        let cap = b.get(m.dst()).is_occupied() || m.kind() == MoveKind::Enpassant;
+        match m.src_cell().piece() {
+            Some(Piece::Pawn) => {
+                let promo = match m.kind() {
+                    MoveKind::PromoteKnight => "=N",
+                    MoveKind::PromoteBishop => "=B",
+                    MoveKind::PromoteRook => "=R",
+                    MoveKind::PromoteQueen => "=Q",
+                    _ => "",
+                };
+                if cap {
+                    sstr.push(format!("{}x{}{}", sf, m.dst(), promo));
+                    sstr.push(format!("{}{}{}", sf, df, promo));
+                } else {
+                    sstr.push(format!("{}{}", m.dst(), promo));
+                }
+            }
+            Some(pc) if m.kind() == MoveKind::Simple => {
+                let l = ['P', 'K', 'N', 'B', 'R', 'Q'][pc.index()];
+                let x = if cap { "x" } else { "" };
+                sstr.push(format!("{}{}{}", l, x, m.dst()));
+                sstr.push(format!("{}{}{}{}", l, sf, x, m.dst()));
+                sstr.push(format!("{}{}{}{}", l, m.src().rank().as_char(), x, m.dst()));
+                sstr.push(format!("{}{}{}{}", l, m.src(), x, m.dst()));
+            }
+            _ => {}
+        }
+    }
+    sstr
+}
+
 fn makelike_all(c: &mut Ctx, p: &Pos, rich: bool) {
     let raw = p.raw_text();
     let b = &p.board;
@@ -436,6 +473,9 @@ fn makelike_all(c: &mut Ctx, p: &Pos, rich: bool) {
                 sstr.insert(v);
             }
         }
+    }
+    for t in illegal_san_texts(b, &sm, &lm, 8) {
+        sstr.insert(t);
     }
     sstr.insert(strgen::random_junk(&mut c.rng));
     sstr.insert(strgen::random_sanlike(&mut c.rng));
@@ -562,6 +602,14 @@ fn c04(c: &mut Ctx) {
     }
     let nc = c.vol(200, 15.0);
     chains(c, nc, Flavor::DeepNest);
+    // chains that contain null moves (pushed unchecked, as search code does): walked back and forth, popped, extended
+    for _ in 0..c.vol(40, 10.0) {
+        let p = start_pos(&mut c.rng, &mut c.pool);
+        c.pos(&p);
+        let s = chaingen::gen_null_line(&mut c.rng, &p);
+        c.st.chain(&s.steps, s.final_len, &s.obs);
+        c.case("chain", &s.line);
+    }
 }
 
 fn c05(c: &mut Ctx) {
@@ -922,6 +970,9 @@ fn c09(c: &mut Ctx) {
                 strs.insert(s);
             }
         }
+        for t in illegal_san_texts(b, &sm, &lm, 6) {
+            strs.insert(t);
+        }
         for _ in 0..2 {
             strs.insert(strgen::random_junk(&mut c.rng));
             strs.insert(strgen::random_sanlike(&mut c.rng));
@@ -1255,6 +1306,14 @@ fn c13(c: &mut Ctx) {
                 c.case("chain", &s.line);
             }
         }
+    }
+    // chains that contain null moves (pushed unchecked, as search code does): walked back and forth, popped, extended
+    for _ in 0..c.vol(20, 10.0) {
+        let p = start_pos(&mut c.rng, &mut c.pool);
+        c.pos(&p);
+        let s = chaingen::gen_null_line(&mut c.rng, &p);
+        c.st.chain(&s.steps, s.final_len, &s.obs);
+        c.case("chain", &s.line);
     }
 }
 
